@@ -178,6 +178,10 @@ def mul(a, b):
 def neg(a):
     if isinstance(a, XR):
         return _xlift(neg, a)
+    if is_sym(a) and a.eq(INF):
+        return NINF
+    if is_sym(a) and a.eq(NINF):
+        return INF
     a = _b2n(a)
     if is_conc_num(a):
         return -a
@@ -306,6 +310,10 @@ def _is_inf(v):
     return is_sym(v) and v.eq(INF)
 
 
+def _is_ninf(v):
+    return is_sym(v) and v.eq(NINF)
+
+
 def _has_inf(v):
     if _is_inf(v):
         return True
@@ -323,6 +331,13 @@ def cmp(op, a, b):
             if side == "a":
                 return ite(v.arg(0), cmp(op, v.arg(1), b), cmp(op, v.arg(2), b))
             return ite(v.arg(0), cmp(op, a, v.arg(1)), cmp(op, a, v.arg(2)))
+    # -np.inf (the literal only): below every other value
+    if _is_ninf(a) or _is_ninf(b):
+        if _is_ninf(a) and _is_ninf(b):
+            return op in ("==", "<=", ">=")
+        if _is_ninf(a):
+            return op in ("<", "<=", "!=")
+        return op in (">", ">=", "!=")
     # np.inf: every other real of the model is finite (assumption, DESIGN §2.3)
     if _is_inf(a) or _is_inf(b):
         if _is_inf(a) and _is_inf(b):
@@ -416,6 +431,7 @@ def implies(a, b):
 # --------------------------------------------------------------------------- theory
 PI = z3.Real("pi")
 INF = z3.Real("inf_")  # np.inf: an opaque value; only (dis)equality with it is meaningful
+NINF = z3.Real("ninf_")  # -np.inf as written in the code (the negation of the literal np.inf)
 NAN = XR(Fraction(0), True)  # np.nan
 UF1 = {n: z3.Function("u_" + n, RealS, RealS) for n in
        ("exp", "log", "sqrt", "sin", "cos", "tan", "tanh", "sinh", "cosh", "arctan",
@@ -836,11 +852,15 @@ def _index_free_factors(body, bv):
     return out
 
 
-def sum_axioms(terms, rounds=1, done=None, signs=True, pairs=True):
+def sum_axioms(terms, rounds=1, done=None, signs=True, pairs=True, monotone=False):
     """Instances of the lemma schemas (DESIGN §2.7) for the Sum applications in `terms`:
       empty          hi <= lo -> S == 0
       sign           (body(sk) >= 0 on the range) -> S >= 0,  likewise <= 0 and == 0   (one skolem per application)
       congruence     for every pair: equal bounds and bodies equal at a skolem index -> equal sums
+      monotone       (only with monotone=True, contract option "sum_monotone") for every pair over the same range:
+                     bodies ordered at a skolem index -> sums ordered; additionally strictly ordered when the bodies are
+                     strictly ordered at one of the goal's skolem indices inside the range (counting arguments: two counts
+                     are equal and one set is contained in the other, so the sets are equal)
     All instances are valid statements about finite sums.  `done` carries state between calls: applications
     and pairs already treated, and applications that only occur inside sign instances (these are not
     expanded further, which keeps the instance set small: expansion follows congruence chains only)."""
@@ -947,6 +967,17 @@ def sum_axioms(terms, rounds=1, done=None, signs=True, pairs=True):
                        z3.Implies(z3.And(a.arg(0) <= sk, sk < a.arg(1)),
                                   da.body_at(a, sk) == dc.body_at(c, sk))),
                 a == c))
+            if monotone:
+                points = [k_ for k_ in {c_.get_id(): c_ for t_ in terms for c_ in free_consts(t_)}.values()
+                          if z3.is_int(k_) and k_.decl().name().startswith("sk_")][:4]
+                for x_, y_ in ((a, c), (c, a)):
+                    dx, dy = SumDef.registry[x_.decl().get_id()], SumDef.registry[y_.decl().get_id()]
+                    sk3 = Fresh.int("sk")
+                    lo_, hi_ = x_.arg(0), x_.arg(1)
+                    le_all = z3.Implies(z3.And(lo_ <= sk3, sk3 < hi_), dx.body_at(x_, sk3) <= dy.body_at(y_, sk3))
+                    ax.append(z3.Implies(le_all, x_ <= y_))
+                    for j_ in points:
+                        ax.append(z3.Implies(z3.And(le_all, lo_ <= j_, j_ < hi_, dx.body_at(x_, j_) < dy.body_at(y_, j_)), x_ < y_))
             # sum_lin (scalar factor): body_x(k) == f * body_y(k) on the range  ==>  x == f * y, for the factors f of
             # body_x that do not depend on the summation index
             for x_, y_ in ((a, c), (c, a)):
